@@ -93,8 +93,8 @@ def gen_history(rng, nops):
             ops.append("PB fmtd %d" % rng.choice([0, -1, 2147483647, -2147483648, 12345]))
         elif r < 0.83:
             ops.append("PB fmtc %d %d %d" % (rng.choice([0, 1, 5, 60, 126]), rng.choice([0, 1, 7, 62, 64, 65, 200]), seed))
-        elif r < 0.84:
-            ops += ["PB app a 0 1", "PB fmts"]   # the buffer formatted into itself (the empty append makes sure it is terminated)
+        elif r < 0.85:
+            ops += ["PB app a 0 1", "PB fmts"] if rng.random() < 0.5 else ["PB app a 0 1", "PB fmts1 %d" % rng.choice([0, 0, 1, 5, 40])]   # the buffer formatted into itself (the empty append makes sure it is terminated)
         elif r < 0.90:
             ops.append("PB reset")
         else:
@@ -219,6 +219,14 @@ def shard_fn(shard, nshards, seed, tier, exe, nhist):
                     model += pre + b"|" + pre
                     want_ret, terminated = 2 * len(pre) + 1, True
                     sh.count("sprintbuf.buffer_formatted_into_itself" + (".long" if 2 * len(pre) + 1 > 127 else ""))
+            elif kind == "fmts1":
+                if n == -1:
+                    want_ret, terminated = 0, was_term
+                else:
+                    pre = bytes(model).split(b"\0")[0][off:]
+                    model += pre
+                    want_ret, terminated = len(pre), True
+                    sh.count("sprintbuf.own_contents_through_bare_percent_s" + (".long" if len(pre) > 127 else ""))
             elif kind == "fmtc":
                 sd = int(op[4])
                 bts = pattern(int(op[2]), sd, True) + b"\0" + pattern(int(op[3]), sd + 1, True)
